@@ -16,7 +16,8 @@ if __name__ != '__main__':
     from lib import gz, gtext, glist, gbool, gopt, gpair
 
 THEOREMS = ['C07_prefix_inj', 'C07_prefix_unique', 'C07_prefix_total', 'C07_sort_det', 'C07_toposort_total',
-            'C07_toposort_sound', 'C07_toposort_det', 'C07_doc_det',
+            'C07_toposort_sound', 'C07_toposort_det', 'C07_doc_det', 'C07_doc_det_decidable', 'C07_doc_det_tiers',
+            'C07_topo_key_names',
             'C07_wsdl_closed', 'C07_one_op', 'C07_binding_unique', 'C07_binding_ops', 'C07_schema_closed',
             'C07_wf_decidable', 'C07_foreign_bare_refuted', 'C07_header_reuse_refuted']
 
@@ -141,6 +142,12 @@ def gen_spec(rng, size='m'):
             sv['methods'].append(m)
             mi += 1
         spec['services'].append(sv)
+    # prefixes of the form sN registered by hand before the build (the case the loop
+    # "while pref in self.nsmap" of get_namespace_prefix exists for)
+    if rng.random() < 0.3:
+        prefs = rng.sample(['s0', 's1', 's2', 's3', 's5'], rng.randint(1, 2))
+        nss = rng.sample([n for n in NSPOOL + ['urn:c07:unused'] if n != tns], len(prefs))
+        spec['preprefix'] = [[p, n] for p, n in zip(prefs, nss)]
     return spec
 
 def M(fn, params=(), returns=('prim', 'Unicode'), style='wrapped', **kw):
@@ -186,6 +193,10 @@ def fixed_specs():
     KI.append({'name': 'Hub', 'ns': None, 'base': None, 'fields': [['p%d' % i, ['cls', i]] for i in range(5)]})
     out.append(('many-imports', {'tns': 'urn:c07:tns', 'name': 'App', 'classes': KI, 'faults': [], 'services': [
         S('Svc0', [M('m0', [('cls', 5)], ('cls', 5))])]}))
+    # hand-registered prefixes s0 / s1 in the way of the automatic ones
+    out.append(('preregistered-prefixes', {'tns': 'urn:c07:tns', 'name': 'App', 'classes': K, 'faults': [],
+                                           'preprefix': [['s0', 'urn:c07:c'], ['s1', 'urn:c07:unused']], 'services': [
+        S('Svc0', [M('m0', [('cls', 1)], ('cls', 2), in_header=[0])])]}))
     # three port types
     out.append(('three-ports', {'tns': 'urn:c07:tns', 'name': 'App', 'classes': [], 'faults': [], 'services': [
         S('Svc0', [M('m0', port='P1'), M('m1', port='P0'), M('m2', port='P2'), M('m3', port='P0')],
@@ -333,6 +344,10 @@ def build_app(spec):
         services.append(type(Service)(str(sv['name']), (Service,), attrs))
     app = Application(services, spec['tns'], name=spec['name'], in_protocol=Soap11(), out_protocol=Soap11())
     app.transport = 'http://schemas.xmlsoap.org/soap/http'
+    for pref, nsname in spec.get('preprefix', ()):
+        if nsname not in app.interface.prefmap and pref not in app.interface.nsmap:
+            app.interface.prefmap[nsname] = pref
+            app.interface.nsmap[pref] = nsname
     b.app = app
     b.classes = classes
     b.faults = faults
@@ -354,12 +369,13 @@ def build_wsdl(app):
 
 
 # =============================================================== snapshot of the populated interface -> Coq
-def sort_key(c):
-    """the toposort2 sort key (spyne/util/toposort.py:_sort_key), a tuple of strings, flattened
-    with U+0000 separators: code point order on the joined text = tuple order"""
+def key_parts(c):
+    """the values the components of toposort2's sort key can take (spyne/util/toposort.py:_sort_key);
+    WHICH of them make up the key is read from the source by harness/translate/wsdlgen.py and the
+    model joins them (Model.key_of)"""
     a = getattr(c, 'Attributes', None)
-    return '\0'.join([repr(c), str(getattr(c, '__namespace__', '')), str(getattr(c, '__type_name__', '')),
-                      str(getattr(a, 'sub_name', ''))])
+    return (repr(c), str(getattr(c, '__namespace__', '')), str(getattr(c, '__type_name__', '')),
+            str(getattr(a, 'sub_name', '')))
 
 def snapshot(app):
     """Gallina term of type Model.snap plus the rank list (real toposort2 order)"""
@@ -399,6 +415,7 @@ def snapshot(app):
             ns = tns
         return ns
     cl = []
+    kinds = {}
     for c in order:
         handler = _add_handlers[c]
         if issubclass(c, (ComplexModelBase, Fault)) and handler in (xm.complex_add,):
@@ -410,6 +427,7 @@ def snapshot(app):
         else:
             kind = 'KPlain'
             unsupported.append(repr(c))
+        kinds[c] = kind
         fields = []
         base = None
         if kind == 'KComplex':
@@ -428,9 +446,12 @@ def snapshot(app):
                     unsupported.append('member %s of %r' % (k, c))
                     continue
                 fields.append('(%s, %s)' % (gtext(a.sub_name if a.sub_name is not None else k), gz(ids[v])))
-        cl.append('{| c_id := %s; c_repr := %s; c_ns := %s; c_tn := %s; c_kind := %s; c_base := %s; '
+        kp = key_parts(c)
+        if kp[1] != (c.get_namespace() or '') or kp[2] != c.get_type_name() or any('\0' in x for x in kp):
+            unsupported.append('sort key components of %r are not its published names' % c)
+        cl.append('{| c_id := %s; c_repr := %s; c_subs := %s; c_ns := %s; c_tn := %s; c_kind := %s; c_base := %s; '
                   'c_fields := %s; c_ename := %s; c_ens := %s |}' % (
-                      gz(ids[c]), gtext(sort_key(c)), gtext(c.get_namespace() or ''), gtext(c.get_type_name()), kind,
+                      gz(ids[c]), gtext(kp[0]), gtext(kp[3]), gtext(c.get_namespace() or ''), gtext(c.get_type_name()), kind,
                       gopt(base, gz), glist(fields), gtext(c.Attributes.sub_name or c.get_type_name()),
                       gtext(ens(c) or '')))
     def gmsg(c):
@@ -470,13 +491,45 @@ def snapshot(app):
             % (gtext(tns), gtext(itf.get_name()), glist(cl), gdeps, gimports, glist(svcs), pst))
     # the order in which the real toposort2 hands the classes over (decides ties between equal reprs)
     rank = []
+    tiers = []
     try:
         dcopy = dict((k, set(v)) for k, v in itf.deps.items())
         for tier in toposort2(dcopy):
+            tiers.append(list(tier))
             rank.extend(ids[c] for c in tier if c in ids)
     except AssertionError:
         pass
-    return term, rank, unsupported
+    # what the hypotheses of the determinism theorems evaluate to on this snapshot, computed here from the
+    # real tiers and confirmed in Coq (key_injb / tier_sepb) by the correspondence
+    comps = topo_key_components()
+    def key(c):
+        kp = key_parts(c)
+        return tuple(kp[i] for i in comps)
+    registered = set(itf.deps.keys())
+    for v in itf.deps.values():
+        registered |= set(v)
+    ks = [key(c) for c in registered]
+    inj = len(set(ks)) == len(ks)
+    sep = True
+    for tier in tiers:
+        kc = [key(c) for c in tier if kinds.get(c) == 'KComplex' or c not in kinds]
+        if len(set(kc)) != len(kc):
+            sep = False
+    return term, rank, unsupported, (inj, sep)
+
+
+_COMPS = {}
+def topo_key_components():
+    """indices into key_parts() of the components toposort2's key has in the tree under test
+    (read from the source by the wsdlgen translator)"""
+    if 'v' not in _COMPS:
+        from translate import wsdlgen
+        names = ['KRepr', 'KNamespace', 'KTypeName', 'KSubName']
+        try:
+            _COMPS['v'] = [names.index(n) for n in wsdlgen.topo_key(lib.REPO)]
+        except Exception:
+            _COMPS['v'] = [0, 1, 2, 3]
+    return _COMPS['v']
 
 
 # =============================================================== parsing the real bytes
@@ -1000,16 +1053,18 @@ IMPORTS = ('From SpyneV Require Import Base.Prelude C07.Model.\n'
            'Fixpoint pl_eqb (a b : list (text * text)) : bool := match a, b with [] , [] => true\n'
            '  | x :: a, y :: b => text_eqb (fst x) (fst y) && text_eqb (snd x) (snd y) && pl_eqb a b | _, _ => false end.\n'
            'Definition obs := (option (list text * list (text * text)))%type.\n'
-           'Definition c07_ok (c : snap * list Z * obs * bool) : bool :=\n'
-           '  let \'(a, rank, o, guard) := c in\n'
+           'Definition c07_ok (c : snap * list Z * obs * bool * bool * bool) : bool :=\n'
+           '  let \'(a, rank, o, guard, pinj, psep) := c in\n'
+           '  Bool.eqb (key_injb a) pinj && Bool.eqb (tier_sepb a) psep &&\n'
            '  match render (perm_by rank) a, o with\n'
            '  | ROk (toks, nm), Some (otoks, onm) =>\n'
            '      tl_eqb toks otoks && pl_eqb (isort (fun x y => text_leb (fst x) (fst y)) nm) onm\n'
            '      && implb guard (wf_snapb a)\n'
            '  | RErr EKeyError, None | RErr EAssertCyclic, None | RErr EValueError, None | RErr ESameName, None => true\n'
            '  | _, _ => false end.\n'
-           'Definition c07_show (c : snap * list Z * obs * bool) :=\n'
-           '  let \'(a, rank, o, guard) := c in (wf_snapb a, render (perm_by rank) a).')
+           'Definition c07_show (c : snap * list Z * obs * bool * bool * bool) :=\n'
+           '  let \'(a, rank, o, guard, pinj, psep) := c in\n'
+           '  (wf_snapb a, key_injb a, tier_sepb a, render (perm_by rank) a).')
 
 # the regions of the known findings in which the hypothesis wf_snap of C07_schema_closed does not hold
 GUARD_REGIONS = frozenset(['bare-simple-foreign-ns', 'bare-complex-foreign-ns', 'bare-class-reused-as-header',
@@ -1025,7 +1080,7 @@ def process(check, name, spec, cases, want_zeep=True):
         # the application itself is rejected by Spyne: outside the property's domain
         check.extra.setdefault('rejected_specs', []).append('%s: %s' % (name, type(e).__name__))
         return None
-    term, rank, unsupported = snapshot(b.app)
+    term, rank, unsupported, (pinj, psep) = snapshot(b.app)
     if unsupported:
         check.mismatch('wsdl_skeleton', '%s: generator produced constructs outside the model: %r' % (name, unsupported[:3]))
         return None
@@ -1036,7 +1091,8 @@ def process(check, name, spec, cases, want_zeep=True):
         key = 'C07|build-crash|%s|%s' % (type(e).__name__, region[0] if region else 'any')
         check.fail(key, '%s: build_interface_document raised %s: %s' % (name, type(e).__name__, str(e).split('\n')[0][:200]),
                    {'spec': spec, 'name': name})
-        cases.append(('(%s, %s, None, false)' % (term, glist([gz(x) for x in rank])), name + ' (build raises)'))
+        cases.append(('(%s, %s, None, false, %s, %s)' % (term, glist([gz(x) for x in rank]), gbool(pinj), gbool(psep)),
+                      name + ' (build raises)'))
         check.count(('crash', name, json.dumps(spec, sort_keys=True)))
         return None
     try:
@@ -1050,7 +1106,13 @@ def process(check, name, spec, cases, want_zeep=True):
     obs = '(Some (%s, %s))' % (glist([gtext(t or '') for t in P['tokens']]),
                                glist(['(%s, %s)' % (gtext(k), gtext(v)) for k, v in P['nsmap']]))
     guard = not (features & GUARD_REGIONS)
-    cases.append(('(%s, %s, %s, %s)' % (term, glist([gz(x) for x in rank]), obs, gbool(guard)), name))
+    cases.append(('(%s, %s, %s, %s, %s, %s)' % (term, glist([gz(x) for x in rank]), obs, gbool(guard), gbool(pinj), gbool(psep)),
+                  name))
+    dh = check.extra.setdefault('determinism_hypotheses', {'snapshots': 0, 'key_injective (C07_doc_det)': 0,
+                                                            'key separates the writing classes of every tier (C07_doc_det_tiers)': 0})
+    dh['snapshots'] += 1
+    dh['key_injective (C07_doc_det)'] += int(pinj)
+    dh['key separates the writing classes of every tier (C07_doc_det_tiers)'] += int(psep)
     check.count(('doc', json.dumps(spec, sort_keys=True)))
     for key, what in oracle_structure(P, b.app, features):
         check.fail(key, '%s: %s' % (name, what), {'spec': spec, 'name': name, 'stage': 'structure'})
@@ -1122,7 +1184,17 @@ def run(check):
         'types and enums are outside the generated universe (the harness reports them as outside the model)',
         'well-formedness of the bytes and the zeep leg are exercised, not proved',
     ]
-    check.regen([])
+    check.regen(['wsdlgen'])
+    try:
+        gen = open(os.path.join(lib.COQ, 'Gen', 'WsdlGen.v')).read()
+    except IOError:
+        gen = ''
+    if 'Definition gen_shape_ok : bool := true.' not in gen:
+        import re
+        why = re.findall(r'\(\* SHAPE MISMATCH: (.*?) \*\)', gen, re.S)
+        check.broken.append(('translator', 'wsdlgen', 'the emitters do not have the shape the translator reads: %s'
+                             % ('; '.join(why) if why else 'Gen/WsdlGen.v missing')))
+    check.extra['generated_constants'] = [l.strip() for l in gen.split('\n') if l.startswith('Definition gen_')]
     check.check_sources()
     check.prove('Props.C07', THEOREMS)
     rng = check.rng
@@ -1152,7 +1224,7 @@ def run(check):
                    '  text_eqb (fst c) xsd_ns && tl_eqb (isort text_leb (snd c)) (isort text_leb xsd_builtins).',
                    'text * list text', 'bi_ok',
                    [('(%s, %s)' % (gtext(NS_XSD), glist([gtext(x) for x in sorted(XSD_BUILTINS)])), 'XSD_BUILTINS')])
-    lib.correspond(check, 'wsdl_skeleton', IMPORTS, 'snap * list Z * obs * bool', 'c07_ok', cases, shard=12,
+    lib.correspond(check, 'wsdl_skeleton', IMPORTS, 'snap * list Z * obs * bool * bool * bool', 'c07_ok', cases, shard=12,
                    show='c07_show')
     # byte identity in fresh processes under different hash seeds
     seeds = [0, 1, 2, 7] if tier == 'quick' else [0, 1, 2, 3, 5, 7, 11, 13, 101, 4242]
